@@ -27,6 +27,8 @@ func init() {
 			"every cycle of every unbounded loop of the recursive-descent parser consumes a real (known non-EOF) token before it returns to the loop head, or leaves the loop (consume / consume-or-report summaries with and without a peeked token, report.HasErrors() edges). " +
 			"Not decided: absence of panics on arbitrary bytes, positions inside the input, print∘parse round-trip equality as values, limit accounting (value level), depth of recursion.",
 		Mutants: []Mutant{
+			{Name: "SimpleWalker no longer visits the directives of a schema definition (seeded change C05-12, sibling view)", File: "v2/pkg/astvisitor/simplevisitor.go", Rule: "C05-R6", Key: "walker-siblings/walkSchemaDefinition",
+				Old: "\tif w.document.SchemaDefinitions[ref].HasDirectives {\n\t\tfor _, i := range w.document.SchemaDefinitions[ref].Directives.Refs {\n\t\t\tw.walkDirective(i)\n\t\t}\n\t}\n", New: ""},
 			{Name: "list value loop no longer leaves on a reported error (hangs on a truncated list)", File: "v2/pkg/astparser/parser.go", Rule: "C05-R5", Key: "Parser.parseValueList/loop1",
 				Old: "\t\t\tlist.Refs = append(list.Refs, ref)\n\t\t}\n\n\t\tif p.report.HasErrors() {\n\t\t\treturn ast.InvalidRef\n\t\t}\n", New: "\t\t\tlist.Refs = append(list.Refs, ref)\n\t\t}\n"},
 			{Name: "object value loop: unexpected token reported by peeking, not reading", File: "v2/pkg/astparser/parser.go", Rule: "C05-R5", Key: "Parser.parseObjectValue/loop1",
@@ -96,6 +98,9 @@ func runC05(r *fw.Run) {
 	// ---- R4 parser/printer agreement ------------------------------------------------------------------
 	r.Rule("C05-R4", "every content field of an AST node that the parser fills is read on the print path (printer callbacks, the SimpleWalker driving them, and their callees)")
 	parsePrintAgreement(r, "C05-R4")
+
+	r.Rule("C05-R6", "the tree walker that drives validation/normalization (astvisitor.Walker) and the one that drives the printer (SimpleWalker) descend into the same children of every node kind")
+	walkerSiblings(r, "C05-R6")
 
 	// ---- R5 parser termination ------------------------------------------------------------------------
 	r.Rule("C05-R5", "every cycle of every unbounded loop of the recursive-descent parser consumes a real (non-EOF) token before it returns to the loop head, or leaves the loop")
